@@ -218,13 +218,13 @@ def ClosedFor (F : Facts) (σ : State) (fs : List (ModId × Func)) (S : List Sta
   ∀ mf ∈ fs, ∃ σ', callFn F mf.1 mf.2 σ = .ok σ' ∧ σ' ∈ S
 
 theorem callAll_spec (F : Facts) (σ : State) :
-    ∀ (fs : List (ModId × Func)) (acc acc' : List State), callAll F σ fs acc = some acc' →
+    ∀ (fs : List (ModId × Func)) (acc acc' : List State), callAll F σ fs acc = .ok acc' →
       (∃ new, acc' = acc ++ new) ∧ ClosedFor F σ fs acc' := by
   intro fs
   induction fs with
   | nil =>
     intro acc acc' h
-    simp only [callAll, Option.some.injEq] at h
+    simp only [callAll, Except.ok.injEq] at h
     subst h
     exact ⟨⟨[], by simp⟩, by intro mf hmf; cases hmf⟩
   | cons mf r ih =>
@@ -251,6 +251,55 @@ theorem callAll_spec (F : Facts) (σ : State) :
           · simp only [hs]; simp
         · exact hcl mf hmf
 
+/-- a failure reported by `callAll` is a failing call of one of the functions, in `σ` -/
+theorem callAll_error (F : Facts) (σ : State) :
+    ∀ (fs : List (ModId × Func)) (acc : List State) (w : Failure), callAll F σ fs acc = .error w →
+      w.state = σ ∧ (w.mod, w.func) ∈ fs ∧ callFn F w.mod w.func σ = .error w.err := by
+  intro fs
+  induction fs with
+  | nil => intro acc w h; simp [callAll] at h
+  | cons mf r ih =>
+    intro acc w h
+    obtain ⟨m, f⟩ := mf
+    simp only [callAll] at h
+    split at h
+    · rename_i e he
+      cases h
+      exact ⟨rfl, List.mem_cons_self .., he⟩
+    · simp only [State.force_eq] at h
+      obtain ⟨h1, h2, h3⟩ := ih _ _ h
+      exact ⟨h1, List.mem_cons_of_mem _ h2, h3⟩
+
+/-- the states `callAll` adds are reached by a call from `σ` -/
+theorem callAll_new_reached (F : Facts) (σ : State) :
+    ∀ (fs : List (ModId × Func)) (acc acc' : List State), callAll F σ fs acc = .ok acc' →
+      ∀ s ∈ acc', s ∈ acc ∨ ∃ mf ∈ fs, callFn F mf.1 mf.2 σ = .ok s := by
+  intro fs
+  induction fs with
+  | nil =>
+    intro acc acc' h s hs
+    simp only [callAll, Except.ok.injEq] at h
+    subst h
+    exact Or.inl hs
+  | cons mf r ih =>
+    intro acc acc' h s hs
+    obtain ⟨m, f⟩ := mf
+    simp only [callAll] at h
+    split at h
+    · cases h
+    · rename_i σ' hc
+      simp only [State.force_eq] at h
+      rcases ih _ _ h s hs with h1 | ⟨mf, hmf, h2⟩
+      · by_cases hsn : seenIn acc σ' = true
+        · simp only [hsn, ite_true] at h1; exact Or.inl h1
+        · simp only [hsn] at h1
+          rcases List.mem_append.1 h1 with h1 | h1
+          · exact Or.inl h1
+          · simp only [List.mem_singleton] at h1
+            subst h1
+            exact Or.inr ⟨(m, f), List.mem_cons_self .., hc⟩
+      · exact Or.inr ⟨mf, List.mem_cons_of_mem _ hmf, h2⟩
+
 /-- invariant of the exploration: states still to be looked at are known, and every known
 state that is not waiting is closed under calls -/
 def ExploreInv (F : Facts) (work seen : List State) : Prop :=
@@ -264,7 +313,7 @@ theorem ClosedFor.mono {F : Facts} {σ : State} {fs : List (ModId × Func)} {S T
 
 theorem explore_spec (F : Facts) :
     ∀ (k : Nat) (work seen final : List State), ExploreInv F work seen →
-      explore F k work seen = some final →
+      explore F k work seen = .closed final →
       (∀ s ∈ seen, s ∈ final) ∧ ∀ s ∈ final, ClosedFor F s (callables F s) final := by
   intro k
   induction k with
@@ -272,7 +321,7 @@ theorem explore_spec (F : Facts) :
     intro work seen final hinv h
     cases work with
     | nil =>
-      simp only [explore, Option.some.injEq] at h
+      simp only [explore, Explored.closed.injEq] at h
       subst h
       refine ⟨fun s hs => hs, fun s hs => ?_⟩
       rcases hinv.2 s hs with hw | hc
@@ -283,7 +332,7 @@ theorem explore_spec (F : Facts) :
     intro work seen final hinv h
     cases work with
     | nil =>
-      simp only [explore, Option.some.injEq] at h
+      simp only [explore, Explored.closed.injEq] at h
       subst h
       refine ⟨fun s hs => hs, fun s hs => ?_⟩
       rcases hinv.2 s hs with hw | hc
@@ -325,8 +374,13 @@ theorem resolvesEntry_spec (F : Facts) (e : ModId) (h : resolvesEntry F e = true
   split at h
   · cases h
   · rename_i σ₀ hi
-    simp only [State.force_eq, Bool.and_eq_true, Option.isSome_iff_exists] at h
-    obtain ⟨hexp, final, hfin⟩ := h
+    simp only [State.force_eq, Bool.and_eq_true] at h
+    obtain ⟨hexp, hcl⟩ := h
+    obtain ⟨final, hfin⟩ : ∃ final, explore F exploreBound [σ₀] [σ₀] = .closed final := by
+      cases hx : explore F exploreBound [σ₀] [σ₀] with
+      | closed seen => exact ⟨seen, rfl⟩
+      | failed w => rw [hx] at hcl; cases hcl
+      | bound => rw [hx] at hcl; cases hcl
     have hinv : ExploreInv F [σ₀] [σ₀] := ⟨fun s hs => hs, fun s hs => Or.inl hs⟩
     obtain ⟨h1, h2⟩ := explore_spec F _ _ _ _ hinv hfin
     exact ⟨σ₀, final, hi, hexp, h1 σ₀ (by simp), h2⟩
@@ -354,6 +408,96 @@ theorem resolver_sound (F : Facts) (h : resolvesAll F = true) (e : ModId) (he : 
   intro σ hr m f hc
   obtain ⟨σ', h1, _⟩ := hcl σ (hreach σ hr) _ (mem_callables F σ m f hc)
   exact ⟨σ', h1⟩
+
+/-! ## an alarm of the resolver is a real failing run of the interpreter -/
+
+/-- everything the check calls is something a program can call -/
+theorem callable_of_mem_callables (F : Facts) (σ : State) (m : ModId) (f : Func)
+    (h : (m, f) ∈ callables F σ) : Callable F σ m f := by
+  unfold callables at h
+  rw [List.mem_flatMap] at h
+  obtain ⟨⟨i, M⟩, hiM, hmem⟩ := h
+  obtain ⟨j, hj, hM⟩ := (mem_zipIdx _ _ _ _).1 hiM
+  have hij : i = j := by omega
+  subst hij
+  simp only at hmem
+  split at hmem
+  · rename_i hst
+    obtain ⟨f', hf', heq⟩ := List.mem_map.1 hmem
+    cases heq
+    exact ⟨hst, M, hM, hf'⟩
+  · cases hmem
+
+/-- a failure found by the exploration is a failing call of a callable function in a state
+that a sequence of calls reaches from `σ₀` -/
+theorem explore_failed_real (F : Facts) (σ₀ : State) :
+    ∀ (k : Nat) (work seen : List State) (w : Failure),
+      (∀ s ∈ seen, Reach F σ₀ s) → (∀ s ∈ work, s ∈ seen) → explore F k work seen = .failed w →
+      Reach F σ₀ w.state ∧ Callable F w.state w.mod w.func ∧
+        callFn F w.mod w.func w.state = .error w.err := by
+  intro k
+  induction k with
+  | zero =>
+    intro work seen w _ _ h
+    cases work <;> simp [explore] at h
+  | succ k ih =>
+    intro work seen w hseen hwork h
+    cases work with
+    | nil => simp [explore] at h
+    | cons σ work =>
+      simp only [explore] at h
+      have hσ : Reach F σ₀ σ := hseen σ (hwork σ (List.mem_cons_self ..))
+      split at h
+      · rename_i w' hca
+        cases h
+        obtain ⟨h1, h2, h3⟩ := callAll_error F σ _ _ _ hca
+        rw [h1]
+        exact ⟨hσ, callable_of_mem_callables F σ _ _ h2, h3⟩
+      · rename_i seen' hca
+        obtain ⟨⟨new, hnew⟩, _⟩ := callAll_spec F σ _ _ _ hca
+        have hdrop : seen'.drop seen.length = new := by rw [hnew]; simp
+        rw [hdrop] at h
+        have hseen' : ∀ s ∈ seen', Reach F σ₀ s := by
+          intro s hs
+          rcases callAll_new_reached F σ _ _ _ hca s hs with h1 | ⟨mf, hmf, h2⟩
+          · exact hseen s h1
+          · exact Reach.call hσ (callable_of_mem_callables F σ _ _ hmf) h2
+        refine ih _ _ w hseen' ?_ h
+        intro s hs
+        rw [hnew]
+        rcases List.mem_append.1 hs with hs | hs
+        · exact List.mem_append_left _ (hwork s (List.mem_cons_of_mem _ hs))
+        · exact List.mem_append_right _ hs
+
+/-- **Every alarm is real** (for all facts).  If the check rejects an entry point, then in the
+interpreter the import of the entry fails, or an advertised name is missing after it, or some
+sequence of calls reaches a state in which a callable function fails with the reported error —
+or there are more reachable states than `exploreBound`.  The resolver never rejects a tree for a
+reason that is not a failing run of the interpreter. -/
+theorem resolver_alarm_is_real (F : Facts) (e : ModId) (h : resolvesEntry F e = false) :
+    (∃ err, importEntry F e = .error err) ∨
+    ∃ σ₀, importEntry F e = .ok σ₀ ∧
+      (exportedB F e σ₀ = false ∨ explore F exploreBound [σ₀] [σ₀] = .bound ∨
+       ∃ w : Failure, Reach F σ₀ w.state ∧ Callable F w.state w.mod w.func ∧
+         callFn F w.mod w.func w.state = .error w.err) := by
+  unfold resolvesEntry at h
+  split at h
+  · rename_i err he
+    exact Or.inl ⟨err, he⟩
+  · rename_i σ₀ hi
+    right
+    refine ⟨σ₀, hi, ?_⟩
+    simp only [State.force_eq, Bool.and_eq_false_iff] at h
+    rcases h with h | h
+    · exact Or.inl h
+    · right
+      cases hx : explore F exploreBound [σ₀] [σ₀] with
+      | closed seen => rw [hx] at h; cases h
+      | bound => exact Or.inl rfl
+      | failed w =>
+        right
+        exact ⟨w, explore_failed_real F σ₀ _ _ _ w (by intro s hs; simp at hs; subst hs; exact Reach.refl)
+          (fun s hs => hs) hx⟩
 
 /-- the import of every entry point succeeds when the check passes (first sentence of the
 property: star imports work) -/
